@@ -182,7 +182,8 @@ func (z *Decimal) Add(x, y *Decimal) *Decimal {
 		// ±0 + ±0
 		z.acc = Exact
 		z.form = zero
-		z.neg = x.neg && y.neg // -0 + -0 == -0
+		// -0 + -0 == -0; +0 + -0 == -0 when rounding toward -Inf
+		z.neg = x.neg && y.neg || x.neg != y.neg && z.mode == ToNegativeInf
 		return z
 	}
 
@@ -1380,7 +1381,8 @@ func (z *Decimal) Sub(x, y *Decimal) *Decimal {
 		// ±0 - ±0
 		z.acc = Exact
 		z.form = zero
-		z.neg = x.neg && !y.neg // -0 - +0 == -0
+		// -0 - +0 == -0; +0 - +0 == -0 when rounding toward -Inf
+		z.neg = x.neg && !y.neg || x.neg == y.neg && z.mode == ToNegativeInf
 		return z
 	}
 
